@@ -62,7 +62,14 @@ func ToBig(x interface{}) *big.Int {
 
 var idxRe = regexp.MustCompile(`\[[0-9]+\]`)
 
-func KindOf(path string) string { return idxRe.ReplaceAllString(path, "[]") }
+// KindOf strips list indices from a path, except the indices of the small structural
+// lists (which oracle, which fold step, which commit-phase cap): leaves of different
+// oracles / steps are different kinds.
+func KindOf(path string) string {
+	return idxRe.ReplaceAllStringFunc(keepRe.ReplaceAllString(path, "$1<$2>"), func(string) string { return "[]" })
+}
+
+var keepRe = regexp.MustCompile(`(EvalsProofs|Steps|CommitPhaseMerkleCaps)\[([0-9]+)\]`)
 
 // Leaves enumerates the variable leaves reachable from the struct pointed to by p,
 // skipping fields tagged gnark:"-".
